@@ -35,6 +35,7 @@ pub trait Parse: Sized {
 //@|    requires old(cursor).wf(),
 //@|    ensures final(cursor).wf(), final(cursor).input == old(cursor).input,
 //@|        r is Ok <==> Self::spec_parse(old(cursor).rest()) is Some,
-//@|        r is Ok ==> Self::spec_parse(old(cursor).rest()) == Some(r->Ok_0)
+//@|        r is Ok ==> Self::spec_parse(old(cursor).rest()) == Some(r->Ok_0) && old(cursor).rest().len() >= 4
 //@|            && final(cursor).rest() == old(cursor).rest().subrange(4, old(cursor).rest().len() as int),
+//@|        r is Err ==> (r->Err_0 is BadResponse || r->Err_0 is BadRequest),
 }
